@@ -233,6 +233,34 @@ class A:
 a = A()
 b = attr.evolve(a, x=2) if __random__ else a
 '''),
+    ('stress:hidden-base-with-many-bases', '''
+class Alpha: pass
+class Bravo: pass
+class Charlie: pass
+class Delta: pass
+class Echo: pass
+def make():
+  class Hidden(Alpha, Bravo, Charlie, Delta, Echo):
+    def m(self): return 1
+  return Hidden
+class C(make()):
+  pass
+def use(x: C):
+  return x.m()
+use(1)
+c = C()
+'''),
+    ('stress:typeddict-missing-extra-keys', '''
+from typing import TypedDict
+class A(TypedDict):
+  alpha: int
+  beta: int
+  gamma: int
+  delta: int
+def f(x: A): pass
+f({"zeta": 1, "eta": 2, "theta": 3})
+f({"alpha": 1})
+'''),
     ('stress:multiple-inheritance-attrs', '''
 class A:
   x = 1
